@@ -62,8 +62,19 @@ def rlCheck (targets : List (List Role)) (actors : List Actor) (grains : List Gr
      else none)]
 
 /-- share-redistribution oracle (`relocateShare`) -/
-def rsCheck (targets : List (List Role)) (actors : List Actor) (grains : List Grain) (t : Trace) : Option String :=
+def rsCheck (targets : List (List Role)) (actors : List Actor) (grains : List Grain) (t : Trace)
+    (target : Nat) (clean : Bool) : Option String :=
   firstSome [
+    -- `clean`: only batches to the unreachable target are rejected and no item fails anywhere: then
+    -- an actor may be recorded as failed only when neither the leader nor ANY other peer advertises
+    -- its role, and no grain fails
+    (if clean then
+       let others := (targets.zipIdx.filter (fun (_, n) => n ≠ target + 1)).map (·.1)
+       let delivered := t.okA.getD (target + 1) []     -- what the target took before it became unreachable
+       let orphans := ((actors.filter (fun a => !eligibleSomewhere others a.role)).map (·.id)).filter (fun i => !delivered.contains i)
+       if sameIds t.failA orphans && t.failG.isEmpty then none
+       else some "redistribution without further faults: the failed items are not exactly the actors that no surviving node (leader or other peer) can host"
+     else none),
     (if !sameIds (t.okA.flatten ++ t.failA) (actors.map (·.id)) then
        some "an actor of the share is not (recreated on exactly one node) xor (recorded as failed)" else none),
     (if !sameIds (t.okG.flatten ++ t.failG) (grains.map (·.id)) then
